@@ -22,7 +22,12 @@ ASSUMPTIONS = ["python-axolotl's SessionBuilder refuses an identity the store do
 
 TRACE = []          # micro events observed at the observer
 WATCH = {"phone": None, "world": None}
-_DEPTH = {"enc": 0}
+_DEPTH = {"enc": 0, "calls": 0}
+
+
+class EndlessHandling(Exception):
+    """raised by the observation wrapper when one history event makes the observer's receive layer handle encrypted stanzas more than 300 times
+    (a fault-free event needs a handful): the layer is re-handling the same stanza for ever"""
 
 
 def setup(chk):
@@ -69,11 +74,15 @@ def setup(chk):
     def handleEncMessage(self, node):
         w = WATCH["world"]
         mgr = getattr(self, "manager", None)
+        if w is not None:
+            _DEPTH["calls"] += 1
+            if _DEPTH["calls"] > 300:
+                raise EndlessHandling("stanza %s from %s (participant %s) handled again and again" % (node["id"], node["from"], node["participant"]))
         if w is None or mgr is None or mgr._username != WATCH["phone"] or _DEPTH["enc"] > 0:
             return orig_enc(self, node)
         from axolotl.protocol.prekeywhispermessage import PreKeyWhisperMessage
         enc = node.getChild("enc")
-        ev = {"ev": "firstMsg" if enc["type"] == "pkmsg" else "msgIn", "contact": node["from"].split("@")[0], "id": node["id"], "outcome": "ok"}
+        ev = {"ev": "firstMsg" if enc["type"] == "pkmsg" else "msgIn", "contact": (node["participant"] or node["from"]).split("@")[0], "id": node["id"], "outcome": "ok"}
         if enc["type"] == "pkmsg":
             try:
                 ev["identity"] = bytes(PreKeyWhisperMessage(serialized=bytes(enc.getData())).getIdentityKey().getPublicKey().serialize())
@@ -102,6 +111,7 @@ def setup(chk):
 
 
 CONTACT_PHONES = ["4915200002", "4915200003"]
+CARRIERS = [None, "status@broadcast", "1500000099@broadcast"]       # how a contact's message reaches the observer: directly / as a status update / through a broadcast list
 OBSERVER_PHONE = "4915200001"
 
 
@@ -121,6 +131,11 @@ def cases(chk):
         {"auto": False, "contacts": 1, "events": [["notify", 0], ["restart"], ["reinstall", 0], ["notify", 0], ["recv", 0]]},
         {"auto": False, "contacts": 2, "events": [["send", 0], ["notify", 1], ["restart"], ["reinstall", 1], ["send", 1], ["recv", 1]]},
     ]
+    corpus += [
+        {"auto": False, "contacts": 1, "events": [["recv", 0], ["reinstall", 0], ["recv", 0, 1], ["restart"], ["recv", 0, 2], ["send", 0]]},
+        {"auto": False, "contacts": 1, "events": [["recv", 0, 1], ["reinstall", 0], ["recv", 0, 2], ["recv", 0]]},
+        {"auto": True, "contacts": 1, "events": [["send", 0], ["reinstall", 0], ["recv", 0, 1], ["send", 0]]},
+    ]
     for c in corpus:
         yield "history", c
     # the same histories with the setting stored as other values of the same truth value (0, None, "" / 1, "yes")
@@ -131,7 +146,9 @@ def cases(chk):
         evs = []
         for _i in range(r.randint(4, 14)):
             k = r.choice(["send", "send", "recv", "recv", "reinstall", "reinstall", "notify", "restart", "auto"])
-            if k in ("send", "recv", "reinstall", "notify"):
+            if k == "recv" and r.random() < 0.4:
+                evs.append([k, r.randrange(nc), r.choice([1, 2])])
+            elif k in ("send", "recv", "reinstall", "notify"):
                 evs.append([k, r.randrange(nc)])
             elif k == "auto":
                 evs.append([k, r.randrange(2)])
@@ -176,7 +193,7 @@ class World(object):
         self.quiesce()
 
     def quiesce(self):
-        self.srv.run(lambda acts: self.rng.choice(acts))
+        self.srv.run(lambda acts: self.rng.choice(acts), limit=800)
 
     def reinstall(self, ci):
         if self.installs[ci]:
@@ -249,6 +266,7 @@ def run_case(chk, stream, case):
             ctx = "auto=%s contacts=%d history %s" % (case["auto"], case["contacts"], hist)
             chk.hit("ev:" + kind)
             del TRACE[:]
+            _DEPTH["calls"] = 0
             pins_before = [A.stored_identity(CONTACT_PHONES[ci]) for ci in range(case["contacts"])]
             expect_at = None       # (client, body) that must be delivered exactly once
             if kind == "reinstall":
@@ -267,6 +285,12 @@ def run_case(chk, stream, case):
                 inst = w.installs[ci][-1]
                 e = TextMessageProtocolEntity(body, to=A.jid)
                 w.sender_identity[e.getId()] = inst.own_identity()
+                if len(ev) > 2 and ev[2]:
+                    # the server hands it over as a status update / broadcast-list message: chat = the list, author = participant
+                    if not hasattr(w.srv, "carriers"):
+                        w.srv.carriers = {}
+                    w.srv.carriers[e.getId()] = CARRIERS[ev[2]]
+                    chk.hit("carrier:" + CARRIERS[ev[2]].split("@")[0][:6])
                 inst.send_entity(e)
                 w.quiesce()
                 expect_at = (A, body, ci, "in")
@@ -289,6 +313,9 @@ def run_case(chk, stream, case):
                     d.ask("trust ev setAuto %d" % (1 if auto else 0))
             if w.srv.raised:
                 j, e, tb = w.srv.raised[0]
+                if isinstance(e, EndlessHandling):
+                    fails.append(oracle("C17:message-handled-for-ever", "%s: the observer never finishes handling this event: %s (more than 300 rounds; stopped by the check)" % (ctx, e)))
+                    break
                 fails.append(oracle("C17:exception-escaped", "%s: %s raised in %s: %s" % (ctx, type(e).__name__, j, tb.strip().splitlines()[-1])))
                 break
             # ---- micro events -> model
@@ -396,6 +423,15 @@ def run_case(chk, stream, case):
                         fails.append(oracle("C17:autotrust-did-not-replace-key", "%s: with automatic trust on, identity #%s is still remembered after a first message from "
                                             "install #%d" % (ctx, w.key_no(ci, pin), len(w.installs[ci]))))
                         break
+    except RuntimeError as e:
+        if "no quiescence" not in str(e):
+            raise
+        kinds = {}
+        for (_j, dr, n) in w.srv.wire[-200:]:
+            k = "%s %s%s" % (dr, n.tag, ":" + n["type"] if n["type"] else "")
+            kinds[k] = kinds.get(k, 0) + 1
+        fails.append(oracle("C17:exchange-never-ends", "auto=%s contacts=%d history %s: the exchange between the observer and the server never comes to rest (%s); the last 200 "
+                            "stanzas: %s" % (case["auto"], case["contacts"], hist, e, sorted(kinds.items(), key=lambda kv: -kv[1])[:4])))
     finally:
         WATCH["world"] = None
         for lst in w.installs:
